@@ -88,6 +88,7 @@ type respWalker struct {
 	nForks   int
 	modeOf   map[string]bool // accepted mode constants
 	resolved map[*ssa.Call]*ssa.Function
+	globals  map[*ssa.Global]*robj
 }
 
 type rFrame struct {
@@ -282,6 +283,11 @@ func (rw *respWalker) val(fr *rFrame, v ssa.Value) rval {
 					return o
 				}
 			case *ssa.Global:
+				// a package-level descriptor with constant fields (var malformedBody = errorKind{400, "malformed_body"}) that
+				// nothing but the package initialiser writes
+				if o := rw.globalObj(a); o != nil {
+					return rval{k: rvObj, obj: o}
+				}
 				return rval{k: rvOther}
 			}
 		}
@@ -340,6 +346,51 @@ func (rw *respWalker) cmp(fr *rFrame, x *ssa.BinOp) rval {
 		return res(constant.Compare(a.c, token.EQL, b.c))
 	}
 	return rval{k: rvOther}
+}
+
+// globalObj reads the constant fields the package initialiser stores into a struct-typed package-level variable; nil when
+// the variable is not a struct, or is written anywhere else.
+func (rw *respWalker) globalObj(g *ssa.Global) *robj {
+	if o, ok := rw.globals[g]; ok {
+		return o
+	}
+	rw.globals[g] = nil
+	if _, isStruct := deref(g.Type()).Underlying().(*types.Struct); !isStruct || g.Pkg == nil {
+		return nil
+	}
+	o := &robj{typ: deref(g.Type()), fields: map[string]rval{}}
+	for _, m := range g.Pkg.Members {
+		fn, ok := m.(*ssa.Function)
+		if !ok {
+			continue
+		}
+		var fns []*ssa.Function
+		fns = append(fns, fn)
+		fns = append(fns, fn.AnonFuncs...)
+		for _, f := range fns {
+			for _, b := range f.Blocks {
+				for _, in := range b.Instrs {
+					st, ok := in.(*ssa.Store)
+					if !ok {
+						continue
+					}
+					fa, isFA := st.Addr.(*ssa.FieldAddr)
+					if st.Addr == ssa.Value(g) || (isFA && fa.X == ssa.Value(g)) {
+						if f.Name() != "init" {
+							return nil // written at run time
+						}
+						if isFA {
+							if c, isC := st.Val.(*ssa.Const); isC && c.Value != nil {
+								o.fields[structFieldName(fa.X.Type(), fa.Field)] = rval{k: rvConst, c: c.Value}
+							}
+						}
+					}
+				}
+			}
+		}
+	}
+	rw.globals[g] = o
+	return o
 }
 
 func (rw *respWalker) cond(fr *rFrame, pt *rPath, c ssa.Value) rval { return rw.val(fr, c) }
@@ -670,7 +721,7 @@ func (rw *respWalker) inline(fr *rFrame, pt *rPath, c *ssa.Call, b *ssa.BasicBlo
 
 // runRespFlow enumerates the handler's paths.
 func runRespFlow(p *core.Program, handler *ssa.Function, psT *types.Named, modes map[string]bool) *respWalker {
-	rw := &respWalker{p: p, pkg: handler.Pkg, psT: psT, limit: 4000, modeOf: modes, resolved: map[*ssa.Call]*ssa.Function{}}
+	rw := &respWalker{p: p, pkg: handler.Pkg, psT: psT, limit: 4000, modeOf: modes, resolved: map[*ssa.Call]*ssa.Function{}, globals: map[*ssa.Global]*robj{}}
 	fr := &rFrame{fn: handler, env: map[ssa.Value]rval{}}
 	rw.walk(fr, &rPath{}, handler.Blocks[0], 0, nil, map[*ssa.BasicBlock]int{}, 0, func(_ *rFrame, pt *rPath, _ []rval) {
 		rw.paths = append(rw.paths, pt)
